@@ -148,5 +148,16 @@ def gate_twin(kind):
         if kind == 'rtu':
             out['oracle_size'] = plen + 3
             out['header_shape'] = 0
+            if r.random() < 0.35:
+                # a freshly constructed framer (header {'uid': 0, 'len': 0, 'crc': ...}) whose first read is a frame cut short at a point where
+                # the bytes so far check out by themselves: the last CRC byte is 0x00 and is the one missing
+                n2 = max(plen, 3)
+                for _ in range(20000):
+                    body = [uid] + [r.randrange(1, 100)] + [r.randrange(256) for _ in range(n2 - 1)]
+                    c = _crc16(body)
+                    if c >> 8 == 0:
+                        out['buffer'] = {'items': body + [c & 255]}
+                        out['header_shape'], out['h_uid'], out['h_len'], out['oracle_size'] = 1, 0, 0, n2 + 3
+                        break
         return out
     return make
